@@ -1,3 +1,5 @@
+//go:build g_heavy
+
 package worlds
 
 // nodekit: builds simulated aurorafs nodes out of the real packages
